@@ -553,7 +553,7 @@ theorem C01_refuted_slot_safe_unrepaired :
 `harness/gen/worker_slots.py` re-reads the slot bookkeeping of `control_loop.py` from the current sources into
 `WfModel/GenWorkerSlots.lean`: the capacity test, the candidate list and the pick of `_add_or_enqueue_event`
 are *translated* into Lean functions; the places that change an `in_progress` list, build a
-`CommandRunWorker`, admit an event, look a finishing execution up / take it out, re-run a collecting step,
+`CommandRunWorker`, accept an event, look a finishing execution up / take it out, re-run a collecting step,
 and the runner's registration of worker coroutines and tasks are emitted as text.  The theorems below say
 that the model the C01 theorems are about IS that code; an edit of any of these places stops them from
 checking. -/
